@@ -25,7 +25,7 @@ RULE = (
     "nesting depth >= 2, or a non-absolute designation, or a malformed name."
 )
 ASSUMPTIONS = [
-    "number spellings Python's int() tolerates but the Specification does not discuss (+5, 1_0, non-ASCII digits) are not generated",
+    "leading zeros in the numeric components (Foo.01.0.dsdl) are not generated - no claim either way; signs, digit separators, blanks and non-ASCII digits are generated as malformed",
     "a designation is only asserted to work when the documentation of read_files describes it (see DESIGN.md, C15)",
 ]
 BUDGET = {"quick": 1200, "thorough": 24000}
@@ -307,6 +307,9 @@ MALFORMED = [
     "Foo.dsdl", "Foo.1.dsdl", "a.Foo.1.0.dsdl", "1.2.Foo.1.0.dsdl", "Foo.x.0.dsdl", "Foo.1.y.dsdl", "x.Foo.1.0.dsdl", "Foo.1.0.0.0.dsdl", "Foo..1.dsdl",
     "Foo.1.0.uavcan.dsdl", "1.0.dsdl", "Foo.-1.0.dsdl", "Foo.1.-1.dsdl", "Foo.256.0.dsdl", "Foo.0.0.dsdl", "9999.Foo.1.0.dsdl", "-1.Foo.1.0.dsdl", "1.5.Foo.1.0.dsdl",
     "Foo.1.0x1.dsdl", "1Foo.1.0.dsdl", "Fo-o.1.0.dsdl", "Fo o.1.0.dsdl", "int8.1.0.dsdl", "Foo.1.0.dsdl.dsdl",
+    # the numeric components are plain decimal numbers: what merely happens to be accepted by a lenient number parser is not
+    "Foo.+1.0.dsdl", "Foo.1.+0.dsdl", "Foo.1_0.0.dsdl", "Foo.1.1_0.dsdl", "Foo. 1.0.dsdl", "Foo.1.0 .dsdl", "Foo.1.-0.dsdl", "+7000.Foo.1.0.dsdl", "70_00.Foo.1.0.dsdl",
+    " 7000.Foo.1.0.dsdl", "7000 .Foo.1.0.dsdl", "-0.Foo.1.0.dsdl", "Foo.\u0661.0.dsdl", "Foo.1.\u0660.dsdl", "\u0667000.Foo.1.0.dsdl", "Foo.\uff11.0.dsdl", "Foo.1.0\n.dsdl",
 ]
 
 
